@@ -116,4 +116,10 @@ CLAIMED['C13'] = dict(
     technique='CrossHair-engine symbolic execution of the exporter with symbolic spine-id / spine-type / category containers x z3-enumerated encodings against a state-based cell model',
     design='5 C13')
 
+CLAIMED['C14'] = dict(
+    text=BMC + 'C14, by induction: (a) frame lemma - each of 68 instances of 23 read-only operation kinds (dumps with every keyword incl. the shared BEKERN_CATEGORIES set and calls that raise, token / unique / encoding / frequency / metacomment queries, spine_types, is_monophonic, iteration, measures_count, graph export to a file, clone) leaves a deep structural snapshot of the Document, of the module-level tables/defaults and of its argument containers unchanged and returns what a freshly imported copy returns; (a2) the same for dumps with UNBOUNDED symbolic integer from_measure/to_measure (39 paths cover all of Z x Z on 3 documents, including the ranges that raise); (b) all ordered pairs of operation instances as two-step histories; (c) two imports of the same text are indistinguishable by snapshot and by every operation (graph output modulo node ids).',
+    note=NOTE + 'Histories longer than two calls follow from the frame lemma (state unchanged => every later call sees an imported state), they are not enumerated to length 12. to_transposed is C15.',
+    technique='inductive frame lemma decided by CrossHair-engine symbolic execution (symbolic integer ranges) and z3-enumerated operation instances/pairs with deep structural snapshots',
+    design='5 C14')
+
 PENDING_REASON = 'check under construction in this session (to be claimed; see DESIGN.md section 5)'
